@@ -23,7 +23,28 @@
    [step_pinned] is the unrepaired creation step, kept for the refutation witness.
 
    Subscription entries on node management are plain data (peer, client feature), kept
-   sorted; the harness sets them up through real subscription calls. *)
+   sorted; the harness sets them up through real subscription calls.
+
+   The detailed-discovery read (processReadDetailedDiscoveryData) is two atomic steps, the
+   boundary being the yield hook "DiscoveryRead.entities":
+     ReadBegin t p   DeviceLocal.Entities() under the device lock: the handler holds the
+                     slice header, i.e. the member list as of this moment; parked
+     ReadEnd t       the handler walks THAT list; every entity object in it is live, so it
+                     is rendered with the type and the features / operations it has now
+                     (EntityLocal.Features() and FeatureLocal.Information() are taken under
+                     their own locks at this point); an entity removed from the device
+                     since ReadBegin is still in the list and still has its features
+   The list taken at ReadBegin is immutable: AddEntity appends to DeviceLocal.entities
+   (possibly into spare capacity of the same backing array, beyond the length of the slice
+   header taken earlier, hence invisible to it) and RemoveEntity builds a NEW slice and
+   never writes to the old backing array.  [Read p] is the uninterrupted read
+   (ReadBegin; ReadEnd on a thread of its own).  Read threads and GetOrAddFeature threads
+   are separate name spaces ([rds] and [thr]).
+   [step_inplace] is the variant in which RemoveEntity compacts the backing array in place
+   (slices.DeleteFunc): a pending read then sees the live array through its old length --
+   the following entities shifted down and a zeroed tail, on which the handler panics
+   (observation ReadPanicked, no reply).  It is kept for the refutation witness only and
+   assumes that no AddEntity reallocated the array in between. *)
 From Verif Require Import Base.Prelude.
 
 Definition ROLE_CLIENT : N := 1.
@@ -124,7 +145,9 @@ Inductive op :=
 | GCreate (t : N)                        (* thread t continues after the hook: the creation *)
 | Subscribe (p c : N)                    (* peer p subscribes its client feature c to node management *)
 | Unsubscribe (p c : N)
-| Read (p : N).                          (* peer p reads nodeManagementDetailedDiscoveryData *)
+| Read (p : N)                           (* peer p reads nodeManagementDetailedDiscoveryData, uninterrupted *)
+| ReadBegin (t p : N)                    (* thread t handles a read of peer p: the entity list is taken; parked at the hook *)
+| ReadEnd (t : N).                       (* thread t continues after the hook: the reply is built from that list and sent *)
 
 Inductive obs :=
 | Created | Exists | NoEntity | AlreadyMember
@@ -141,7 +164,9 @@ Inductive obs :=
 | RFn (fn : N) (r rp w wp : bool)        (* supported function with possible operations, sorted by fn *)
 | REnd
 | Other (p : N)                          (* any other datagram written to peer p *)
-| OkDone | NoFeature.
+| OkDone | NoFeature
+| Parked                                 (* the read handler holds its entity list and is parked at the hook *)
+| ReadPanicked.                          (* the read handler panicked (nil entity in its list); no reply was sent *)
 
 Definition render_feat (e : N) (f : feat) (res : option feat) : list obs :=
   let '(rid, rty, rrole) := match res with
@@ -156,7 +181,8 @@ Record st := {
   ctrs : list (N * N);                 (* next feature id per entity object *)
   members : list N;                    (* DeviceLocal.entities *)
   subs : list (N * N);                 (* subscription entries on node management: (peer, client feature) *)
-  thr : list (N * (N * N * N))         (* GetOrAddFeature calls parked at the hook: thread -> (entity, type, role) *)
+  thr : list (N * (N * N * N));        (* GetOrAddFeature calls parked at the hook: thread -> (entity, type, role) *)
+  rds : list (N * (N * list N))        (* discovery reads parked at the hook: thread -> (peer, the entity list it holds) *)
 }.
 
 (* the tree built by NewDeviceLocal (feature set "smart"): entity 0 with
@@ -174,7 +200,7 @@ Definition dc_feat : feat :=
 
 Definition init : st :=
   {| objs := [(0%N, {| e_type := ET_DEVINFO; e_feats := [nm_feat; dc_feat] |})];
-     ctrs := [(0, 2)]%N; members := [0%N]; subs := []; thr := [] |}.
+     ctrs := [(0, 2)]%N; members := [0%N]; subs := []; thr := []; rds := [] |}.
 
 (* DeviceLocal.FeatureByAddress: first member entity with the address, first feature with the id *)
 Definition resolve (s : st) (e id : N) : option feat :=
@@ -193,10 +219,15 @@ Definition type_of (s : st) (e : N) : N :=
 Definition render_feats (s : st) (e : N) : list obs :=
   flat_map (fun f => render_feat e f (resolve s e (f_id f))) (feats_of s e).
 
-(* processReadDetailedDiscoveryData *)
-Definition render_reply (s : st) (p : N) : list obs :=
-  RBegin p true :: map (fun e => REnt e (type_of s e) 0) (members s) ++
-  flat_map (render_feats s) (members s) ++ [REnd].
+(* processReadDetailedDiscoveryData from the entity list [l] the handler holds: the entity
+   objects of [l] as they are in [s] (the resolution columns are what FeatureByAddress
+   returns in [s]: nil for an entity that is not a member any more) *)
+Definition render_reply_of (s : st) (p : N) (l : list N) : list obs :=
+  RBegin p true :: map (fun e => REnt e (type_of s e) 0) l ++
+  flat_map (render_feats s) l ++ [REnd].
+
+(* the uninterrupted read *)
+Definition render_reply (s : st) (p : N) : list obs := render_reply_of s p (members s).
 
 (* notifySubscribersOfEntity: one partial notify per subscription entry on node management *)
 Definition render_notifs (s : st) (e lsc : N) (with_feats : bool) : list obs :=
@@ -205,11 +236,11 @@ Definition render_notifs (s : st) (e lsc : N) (with_feats : bool) : list obs :=
               (if with_feats then render_feats s e else []) ++ [REnd]) (subs s).
 
 Definition set_objs (s : st) (o : list (N * eobj)) : st :=
-  {| objs := o; ctrs := ctrs s; members := members s; subs := subs s; thr := thr s |}.
+  {| objs := o; ctrs := ctrs s; members := members s; subs := subs s; thr := thr s; rds := rds s |}.
 
 (* hand out the next feature id of entity e *)
 Definition take_id (s : st) (e : N) : st * N :=
-  ({| objs := objs s; ctrs := ctr_bump e (ctrs s); members := members s; subs := subs s; thr := thr s |},
+  ({| objs := objs s; ctrs := ctr_bump e (ctrs s); members := members s; subs := subs s; thr := thr s; rds := rds s |},
    ctr_of (ctrs s) e).
 
 (* the locked creation of GetOrAddFeature; [recheck] = the repair *)
@@ -222,7 +253,7 @@ Definition create (recheck : bool) (s : st) (e ty role : N) : st * list obs :=
       (set_objs s1 (upd_feats e (fun l => l ++ [f]) (objs s1)), [GRet id true])
   end.
 
-Definition step_gen (recheck : bool) (s : st) (o : op) : st * list obs :=
+Definition step_gen (recheck inplace : bool) (s : st) (o : op) : st * list obs :=
   match o with
   | NewEntity e ty =>
       match assoc_N (Npos e) (objs s) with
@@ -230,7 +261,7 @@ Definition step_gen (recheck : bool) (s : st) (o : op) : st * list obs :=
       | None =>
           ({| objs := objs s ++ [(Npos e, {| e_type := ty; e_feats := [] |})];
               ctrs := ctrs s ++ [(Npos e, 1%N)];
-              members := members s; subs := subs s; thr := thr s |}, [Created])
+              members := members s; subs := subs s; thr := thr s; rds := rds s |}, [Created])
       end
   | AddEntity e =>
       match assoc_N (Npos e) (objs s) with
@@ -238,7 +269,7 @@ Definition step_gen (recheck : bool) (s : st) (o : op) : st * list obs :=
       | Some _ =>
           if memN (Npos e) (members s) then (s, [AlreadyMember])
           else let s1 := {| objs := objs s; ctrs := ctrs s; members := members s ++ [Npos e];
-                            subs := subs s; thr := thr s |} in
+                            subs := subs s; thr := thr s; rds := rds s |} in
                (s1, render_notifs s1 (Npos e) 1 true)
       end
   | RemoveEntity e =>
@@ -247,7 +278,7 @@ Definition step_gen (recheck : bool) (s : st) (o : op) : st * list obs :=
       | Some _ =>
           let s1 := {| objs := objs s; ctrs := ctrs s;
                        members := filter (fun x => negb (N.eqb x (Npos e))) (members s);
-                       subs := subs s; thr := thr s |} in
+                       subs := subs s; thr := thr s; rds := rds s |} in
           (s1, render_notifs s1 (Npos e) 2 false)
       end
   | AddFeature e ty role desc fns =>
@@ -296,7 +327,7 @@ Definition step_gen (recheck : bool) (s : st) (o : op) : st * list obs :=
               | Some f => (s, [GRet (f_id f) false])
               | None =>
                   ({| objs := objs s; ctrs := ctrs s; members := members s; subs := subs s;
-                      thr := (t, (e, ty, role)) :: thr s |}, [Miss])
+                      thr := (t, (e, ty, role)) :: thr s; rds := rds s |}, [Miss])
               end
           end
       end
@@ -305,42 +336,64 @@ Definition step_gen (recheck : bool) (s : st) (o : op) : st * list obs :=
       | None => (s, [NoThread])
       | Some (e, ty, role) =>
           create recheck {| objs := objs s; ctrs := ctrs s; members := members s; subs := subs s;
-                            thr := remove_N t (thr s) |} e ty role
+                            thr := remove_N t (thr s); rds := rds s |} e ty role
       end
   | Subscribe p c =>
       if N.ltb c NCLIENT && negb (sub_mem (p, c) (subs s))
-      then ({| objs := objs s; ctrs := ctrs s; members := members s; subs := sub_ins (p, c) (subs s); thr := thr s |},
+      then ({| objs := objs s; ctrs := ctrs s; members := members s; subs := sub_ins (p, c) (subs s); thr := thr s; rds := rds s |},
             [SubRes true])
       else (s, [SubRes false])
   | Unsubscribe p c =>
       if sub_mem (p, c) (subs s)
-      then ({| objs := objs s; ctrs := ctrs s; members := members s; subs := sub_del (p, c) (subs s); thr := thr s |},
+      then ({| objs := objs s; ctrs := ctrs s; members := members s; subs := sub_del (p, c) (subs s); thr := thr s; rds := rds s |},
             [SubRes true])
       else (s, [SubRes false])
   | Read p => (s, render_reply s p)
+  | ReadBegin t p =>
+      match assoc_N t (rds s) with
+      | Some _ => (s, [BusyT])
+      | None =>
+          ({| objs := objs s; ctrs := ctrs s; members := members s; subs := subs s; thr := thr s;
+              rds := (t, (p, members s)) :: rds s |}, [Parked])
+      end
+  | ReadEnd t =>
+      match assoc_N t (rds s) with
+      | None => (s, [NoThread])
+      | Some (p, l) =>
+          let s1 := {| objs := objs s; ctrs := ctrs s; members := members s; subs := subs s; thr := thr s;
+                       rds := remove_N t (rds s) |} in
+          if inplace
+          then (* the handler ranges over the first [length l] slots of the live backing array *)
+               if N.ltb (N.of_nat (length (members s))) (N.of_nat (length l))
+               then (s1, [ReadPanicked])
+               else (s1, render_reply_of s1 p (firstn (length l) (members s)))
+          else (s1, render_reply_of s1 p l)
+      end
   end.
 
-Definition step := step_gen true.
-Definition step_pinned := step_gen false.
+Definition step := step_gen true false.
+Definition step_pinned := step_gen false false.       (* GetOrAddFeature without the second look *)
+Definition step_inplace := step_gen true true.        (* RemoveEntity compacting in place *)
 
-Fixpoint run_gen (recheck : bool) (s : st) (ops : list op) : st * list (op * list obs) :=
+Fixpoint run_gen (recheck inplace : bool) (s : st) (ops : list op) : st * list (op * list obs) :=
   match ops with
   | [] => (s, [])
   | o :: r =>
-      let '(s1, out) := step_gen recheck s o in
-      let '(s2, tr) := run_gen recheck s1 r in
+      let '(s1, out) := step_gen recheck inplace s o in
+      let '(s2, tr) := run_gen recheck inplace s1 r in
       (s2, (o, out) :: tr)
   end.
 
-Definition run := run_gen true.
-Definition run_pinned := run_gen false.
+Definition run := run_gen true false.
+Definition run_pinned := run_gen false false.
+Definition run_inplace := run_gen true true.
 
 (* ---- wire encoding ----
    op:  0 e ty | 1 e | 2 e | 3 e ty role desc (fn r w ps)* | 4 e fid fn r w ps | 5 e | 6 e ty role |
-        7 t e ty role | 8 t | 9 p c | 10 p c | 11 p
+        7 t e ty role | 8 t | 9 p c | 10 p c | 11 p | 12 t p | 13 t
    obs: 0 Created 1 Exists 2 NoEntity 3 AlreadyMember | 4 id | 5 id new | 6 Miss 7 NoThread 8 BusyT | 9 ok |
         10 p c ok | 11 p ok | 12 e ty lsc | 13 e id ty role desc rid rty rrole | 14 fn r rp w wp | 15 REnd |
-        16 p | 17 OkDone 18 NoFeature *)
+        16 p | 17 OkDone 18 NoFeature | 19 Parked 20 ReadPanicked *)
 Fixpoint parse_fns (l : list Z) : option (list fnspec) :=
   match l with
   | [] => Some []
@@ -370,6 +423,8 @@ Definition parse_op (l : list Z) : option op :=
   | [9; p; c] => Some (Subscribe (Nz p) (Nz c))
   | [10; p; c] => Some (Unsubscribe (Nz p) (Nz c))
   | [11; p] => Some (Read (Nz p))
+  | [12; t; p] => Some (ReadBegin (Nz t) (Nz p))
+  | [13; t] => Some (ReadEnd (Nz t))
   | _ => None
   end.
 
@@ -394,6 +449,8 @@ Definition print_obs (o : obs) : list Z :=
   | Other p => [16; Zn p]
   | OkDone => [17]
   | NoFeature => [18]
+  | Parked => [19]
+  | ReadPanicked => [20]
   end.
 
 Definition parse_obs (l : list Z) : option obs :=
@@ -418,5 +475,7 @@ Definition parse_obs (l : list Z) : option obs :=
   | [16; p] => Some (Other (Nz p))
   | [17] => Some OkDone
   | [18] => Some NoFeature
+  | [19] => Some Parked
+  | [20] => Some ReadPanicked
   | _ => None
   end.
